@@ -163,7 +163,7 @@ def _asdict_anything(
         items = [
             _asdict_anything(
                 i,
-                is_key=False,
+                is_key=is_key,
                 filter=filter,
                 dict_factory=dict_factory,
                 retain_collection_types=retain_collection_types,
